@@ -128,7 +128,7 @@ inductive Scenario where
   | reject (r : Reject)
   | unmodelled
   | run (obs : List Obs)
-  deriving Repr
+  deriving DecidableEq, Repr
 
 def scenario (lines : List Bytes) (reqs : List Req) : Scenario :=
   match parseConf lines with
